@@ -2,5 +2,4 @@
 # Offline setup: check the toolchains and warm the build cache by building every test-binary variant once.
 set -e
 cd "$(dirname "$0")"
-cp /repo/go.sum harness/go.sum 2>/dev/null || true
 exec ./vcheck --build-only
